@@ -150,11 +150,13 @@ func c07Lint(dir, cfgText, content string) (reps []c07Rep, rules [][2]int, check
 			checks = append(checks, e.Checks)
 		}
 	}
+	// texts may quote other rules as <file>:<line>: the scratch directory and the line number are masked
+	norm := func(t string) string { return c07FileLine.ReplaceAllString(strings.ReplaceAll(t, dir+"/", ""), "$1:L") }
 	for _, r := range res.Reports {
-		parts := []any{r.Summary, c07FileLine.ReplaceAllString(r.Details, "$1:L"), r.Severity, r.Anchor}
+		parts := []any{r.Summary, norm(r.Details), r.Severity, r.Anchor}
 		ln := []int{r.First, r.Last}
 		for _, d := range r.Diags {
-			parts = append(parts, c07FileLine.ReplaceAllString(d.Message, "$1:L"), d.First, d.Last)
+			parts = append(parts, norm(d.Message), d.First, d.Last)
 			for _, p := range d.Pos {
 				parts = append(parts, p.First, p.Last)
 				ln = append(ln, p.Line)
